@@ -12,4 +12,5 @@ def bounded_jobs(tier, seed):
         bj('rcc.b_C01', 'run_roundtrip', tier, seed),
         bj('rcc.b_C01', 'run_vocabulary', tier, seed),
         bj('rcc.b_C01', 'run_foreign_writer', tier, seed),
+        bj('rcc.b_C01', 'run_native_roundtrip', tier, seed),
     ]
